@@ -97,6 +97,7 @@ v('C07', 'fire', KA, 'cho_solve((L, True), HP', 'cho_solve((L, False), HP')
 v('C07', 'fire', KA, 'S = HP @ H.T + R', 'S = HP @ H.T')
 v('C07 C19', 'fire', KA, 'K = cho_solve((L, True), HP, overwrite_b=True).T', 'K = cho_solve((L, True), P, overwrite_b=True).T')
 v('C07', 'silent', KA, 'U = np.eye(len(x)) - K.dot(H)', 'U = np.identity(len(x)) - K @ H')
+v('C19 C16', 'fire', 'earth.py', '    n = 1 if re.ndim == 0 else len(re)', '    n = 1', 'stacked form of curvature_matrix allocates one row (broadcasting error for n > 1)')
 v('C01 C04', 'fire', '_numba_integrate.py', '        rho1 = V2 / re\n', '        rho1 = V2 / rn\n', 'seeded C01 round 3: east transport rate with the meridian radius (velocity update only)')
 v('C10 C11 C12', 'fire', 'filters.py', """    start_time = times[0]
     end_time = times[-1]
